@@ -44,6 +44,23 @@ func init() {
 			return a[1]
 		},
 		"Register": func(e *Exec, fr *Frame, fn *ssa.Function, a []Value) Value { return nil },
+		"And": func(e *Exec, fr *Frame, fn *ssa.Function, a []Value) Value {
+			var ts []*Term
+			for _, v := range strSliceArg(e, a[0]) {
+				ts = append(ts, v.(*Term))
+			}
+			return e.tf.And(ts...)
+		},
+		"Or": func(e *Exec, fr *Frame, fn *ssa.Function, a []Value) Value {
+			var ts []*Term
+			for _, v := range strSliceArg(e, a[0]) {
+				ts = append(ts, v.(*Term))
+			}
+			return e.tf.Or(ts...)
+		},
+		"Implies": func(e *Exec, fr *Frame, fn *ssa.Function, a []Value) Value {
+			return e.tf.Implies(a[0].(*Term), a[1].(*Term))
+		},
 		"Symbolic": func(e *Exec, fr *Frame, fn *ssa.Function, a []Value) Value { return e.tf.Bool(true) },
 	}
 }
@@ -69,7 +86,7 @@ func (e *Exec) input(name string, s Sort, lo, hi *big.Int) *Term {
 			if hi != nil {
 				cs = append(cs, e.tf.mk(&Term{Op: "<=", Sort: SBool, Args: []*Term{t, e.tf.IntB(hi)}}))
 			}
-			e.assume(e.tf.And(cs...))
+			e.assumeFresh(e.tf.And(cs...))
 		}
 	}
 	return t
@@ -109,7 +126,7 @@ func inStr(e *Exec, fr *Frame, fn *ssa.Function, a []Value) Value {
 		if v, ok := e.cfg["strlen"]; ok {
 			fmt.Sscan(v, &maxLen)
 		}
-		e.assume(e.tf.And(e.tf.InRe(t, strAlphabet), e.tf.mk(&Term{Op: "<=", Sort: SBool, Args: []*Term{e.tf.StrLen(t), e.tf.Int(maxLen)}})))
+		e.assumeFresh(e.tf.mk(&Term{Op: "<=", Sort: SBool, Args: []*Term{e.tf.StrLen(t), e.tf.Int(maxLen)}}))
 	}
 	return StrV{T: t}
 }
@@ -158,7 +175,7 @@ func inChars(e *Exec, fr *Frame, fn *ssa.Function, a []Value) Value {
 					alts = append(alts, e.tf.And(e.tf.Le(e.tf.Int(int64(r[0])), c), e.tf.Le(c, e.tf.Int(int64(r[1])))))
 				}
 			}
-			e.assume(e.tf.Or(alts...))
+			e.assumeFresh(e.tf.Or(alts...))
 		}
 		cs[i] = c
 	}
